@@ -39,12 +39,15 @@ package core
 //@   assumed
 //@   pure
 //@   ensures isIntV(x) ==> dnIsInt(r)
+//@   ensures typeis(x, "SuDnum") ==> r == unbox(x, "SuDnum").Dnum
 //@ func ToInt(x) (r)
 //@   assumed
 //@   pure
+//@   ensures isIntV(x) ==> r == ivalV(x)
 //@ func (si *smi) ToDnum() (d, ok)
 //@   nonil
 //@   ensures ok && dnIsInt(d)
+//@   ensures! exact: -32768 <= absval(si) && absval(si) <= 32767 ==> dnIntVal(d) == absval(si)
 //@ func (si SuInt64) ToDnum() (d, ok)
 //@   ensures ok && dnIsInt(d)
 
@@ -157,6 +160,8 @@ package core
 //@   ensures! class: typeis(other, "SuBool") ==> r == 2
 //@   ensures! class2: typeis(other, "SuStr") || typeis(other, "SuDate") || typeis(other, "SuTimestamp") ==> r == -2
 //@   ensures! int: isIntV(other) ==> r == sgn(absval(si) - ivalV(other))
+//@   ensures! dnum: typeis(other, "SuDnum") && dnExactInt(unbox(other, "SuDnum")) ==> r == sgn(absval(si) - dnIntVal(unbox(other, "SuDnum").Dnum))
+//@   ensures! nonint: typeis(other, "SuDnum") && !dnIsInt(unbox(other, "SuDnum").Dnum) ==> r != 0
 //@ func (si SuInt64) Compare(other) (r)
 //@   nonil
 //@   ensures! class: typeis(other, "SuBool") ==> r == 2
@@ -368,6 +373,40 @@ package core
 //@   panics_if len(s) < 3 || len(s) > 10
 //@   ensures! r.sign == sign && r.exp == exp && r.coef == unpCoef(s, xor)
 
+// UnpackNumber: which of the three forms is decoded and with which sign / exponent / coefficient.
+// Whether a packed number is handed to the integer decoder (intable) and what that returns
+// (unpackInt) are abstracted (uninterpreted / assumed): the integer path is not covered.
+//@ spec unpXor(s string) int = s[0] == 2 ? 255 : 0
+//@ spec unpSign(s string) int = s[0] == 2 ? -1 : 1
+// the exponent byte is exp+128, complemented for negative numbers; wrap8 is the conversion to int8
+//@ spec wrap8(v int) int = (v + 128) % 256 - 128
+//@ spec unpExp(s string) int = s[0] == 2 ? wrap8(255 - (s[1] ^ 128)) : wrap8(s[1] ^ 128)
+//@ spec intableS(s string, exp int8, xor byte) bool
+//@ func intable(s, exp, xor) (r)
+//@   assumed
+//@   pure
+//@   defines r == intableS(s, exp, xor)
+//@ func unpackInt(s, sign, exp, xor) (r)
+//@   assumed
+//@   pure
+//@ func UnpackNumber(s) (r)
+//@   arith wrap
+//@   requires len(s) <= 1 || (3 <= len(s) && len(s) <= 10)
+//@   requires len(s) > 1 && s[0] == 2 && unpByte(s, 2, 255) != 255 ==> 1000000000000000 <= unpCoef(s, 255) && unpCoef(s, 255) <= 9999999999999999
+//@   requires len(s) > 1 && s[0] != 2 && unpByte(s, 2, 0) != 255 ==> 1000000000000000 <= unpCoef(s, 0) && unpCoef(s, 0) <= 9999999999999999
+//@   ensures! inf_neg: len(s) > 1 && s[0] == 2 && unpByte(s, 2, 255) == 255 ==> typeis(r, "SuDnum") && unbox(r, "SuDnum").Dnum.sign == -2
+//@   ensures! inf_pos: len(s) > 1 && s[0] != 2 && unpByte(s, 2, 0) == 255 ==> typeis(r, "SuDnum") && unbox(r, "SuDnum").Dnum.sign == 2
+//@   ensures! finite_neg: len(s) > 1 && s[0] == 2 && unpByte(s, 2, 255) != 255 && !intableS(s, unpExp(s), 255) ==> typeis(r, "SuDnum") && unbox(r, "SuDnum").Dnum.sign == -1 && unbox(r, "SuDnum").Dnum.exp == unpExp(s) && unbox(r, "SuDnum").Dnum.coef == unpCoef(s, 255)
+//@   ensures! finite_pos: len(s) > 1 && s[0] != 2 && unpByte(s, 2, 0) != 255 && !intableS(s, unpExp(s), 0) ==> typeis(r, "SuDnum") && unbox(r, "SuDnum").Dnum.sign == 1 && unbox(r, "SuDnum").Dnum.exp == unpExp(s) && unbox(r, "SuDnum").Dnum.coef == unpCoef(s, 0)
+
+// UnpackNumber decodes what Pack wrote: on the bytes dnPackByte(d, .) of a finite decimal the decoded
+// sign, exponent and coefficient are d's, and the third byte is never the infinity marker
+//@ lemma! unpack_inverts_pack_pos(d dnum.Dnum, s string): validDnum(d) && d.sign == 1 && -128 <= d.exp && d.exp <= 127 && len(s) == dnPackSize(d) && (forall i :: 0 <= i && i < len(s) ==> s[i] == dnPackByte(d, i)) ==> s[0] != 2 && unpExp(s) == d.exp && unpByte(s, 2, 0) != 255 && unpCoef(s, 0) == d.coef
+//@ spec cb(s string, i int) int = i < len(s) ? 255 - s[i] : 0
+//@ spec unpCoefNeg(s string) int = cb(s, 2) * 100000000000000 + cb(s, 3) * 1000000000000 + cb(s, 4) * 10000000000 + cb(s, 5) * 100000000 + cb(s, 6) * 1000000 + cb(s, 7) * 10000 + cb(s, 8) * 100 + cb(s, 9)
+//@ lemma! unp_neg_complement(s string): unpCoef(s, 255) == unpCoefNeg(s) && unpByte(s, 2, 255) == cb(s, 2)
+//@ lemma! unpack_inverts_pack_neg(d dnum.Dnum, s string): validDnum(d) && d.sign == -1 && -128 <= d.exp && d.exp <= 127 && len(s) == dnPackSize(d) && (forall i :: 0 <= i && i < len(s) ==> s[i] == dnPackByte(d, i)) ==> s[0] == 2 && cb(s, 2) != 255 && unpCoefNeg(s) == d.coef
+//@ lemma! unpack_inverts_pack_neg_exp(d dnum.Dnum, s string): validDnum(d) && d.sign == -1 && -128 <= d.exp && d.exp <= 127 && len(s) == dnPackSize(d) && s[0] == dnPackByte(d, 0) && s[1] == dnPackByte(d, 1) ==> unpExp(s) == d.exp
 // the digit pairs written by Pack recombine to the coefficient (so unpackDnum inverts Pack),
 // complementing twice is the identity, and dropping trailing zero pairs loses nothing
 //@ lemma! pack_pairs_roundtrip(c int): 0 <= c && c <= 9999999999999999 ==> pairAt(c, 0) * 100000000000000 + pairAt(c, 1) * 1000000000000 + pairAt(c, 2) * 10000000000 + pairAt(c, 3) * 100000000 + pairAt(c, 4) * 1000000 + pairAt(c, 5) * 10000 + pairAt(c, 6) * 100 + pairAt(c, 7) == c
@@ -528,3 +567,11 @@ package core
 //@ func (g typeGlobal) FindName(th, name) (r)
 //@   assumed
 //@   pure
+
+//@ property C07 C08 C44
+// what a record holds in field i, named for the contracts of db19 (duplicate key decision)
+//@ spec recRaw(r Record, i int) string
+//@ func (r Record) GetRaw(i) (s)
+//@   assumed
+//@   pure
+//@   defines s == recRaw(r, i)
